@@ -101,4 +101,13 @@ example : getProp .str propEnum [65] [107] = some (.str [118]) := by decide
 example : getProp .str propEnum [66] [107] = none := by decide
 example : getProp .bool propEnum [65] [107] = none := by decide
 
+/-- **at source level**: the getter of type `T` on a written variant returns the first `(key, T)` entry among ALL `props(..)`
+    groups written on that variant, in source order - whatever stands between the groups, whatever other variants carry -/
+theorem source_get (t : PropTy) (s : RawSource) (hid : (s.variants.map (·.ident)).Nodup) (r : RawVariant)
+    (hr : r ∈ s.variants) (key : Bytes) :
+    getProp t s.declared r.ident key =
+      if r.isDisabled then none
+      else (((propsOf r.attrs.flatten).filter (fun p => p.2.ty == t)).find? (fun p => p.1 == key)).map (·.2) :=
+  get_spec t s.declared (source_nodup s hid) r.declared (source_mem s r hr) key
+
 end Strum
